@@ -243,10 +243,10 @@ void CommonOperations::assign_array_literal_to_variable(
     }
 
     std::vector<int64_t> adjusted_values = result.int_values;
+    const std::string resolved_name = var_name_hint.empty()
+                                          ? std::string("<anonymous array>")
+                                          : var_name_hint;
     if (var->is_unsigned) {
-        const std::string resolved_name = var_name_hint.empty()
-                                              ? std::string("<anonymous array>")
-                                              : var_name_hint;
         for (auto &value : adjusted_values) {
             if (value < 0) {
                 DEBUG_WARN(VARIABLE,
@@ -255,6 +255,17 @@ void CommonOperations::assign_array_literal_to_variable(
                            resolved_name.c_str(),
                            static_cast<long long>(value));
                 value = 0;
+            }
+        }
+    }
+
+    // 要素代入と同じ型範囲チェック（ポインタ配列はスキップ）
+    if (var->type >= TYPE_ARRAY_BASE && !var->is_pointer) {
+        TypeInfo base_type = static_cast<TypeInfo>(var->type - TYPE_ARRAY_BASE);
+        if (base_type != TYPE_POINTER) {
+            for (int64_t value : adjusted_values) {
+                interpreter_->get_type_manager()->check_type_range(
+                    base_type, value, resolved_name, var->is_unsigned);
             }
         }
     }
